@@ -162,8 +162,65 @@ def positive_s(draw):
     return min(max(10.0 ** e, 1e-4), 1e2)
 
 
+LONG_N = [2400, 5000, 2049, 4097, 1025, 4096, 2048, 1024, 1000, 1023, 2047, 4095]
+
+
 @st.composite
-def base(draw, ctx, ykind=None, nonconstant=False, m_hi=80, offsets=True):
+def long_spec(draw, ctx):
+    """A long series described by a dozen numbers (expanded in the body, see expand): abscissae unit / float step /
+    repeated gap motif; values offset + sig*sin(periods turns over the range) + hash noise whose summed squared
+    deviation from its mean is E0.  Smoothing conditions for such a series are chosen near E0: FITPACK then needs
+    O(100) knots and a few hundredths of a second, whereas s far below the noise energy costs seconds to minutes."""
+    return dict(n=draw(st.sampled_from(LONG_N + ctx.pick([], [8191, 8192, 8193, 10000]))),
+                xk=draw(st.sampled_from(["unit", "fstep", "motif"])), x0=float(draw(st.integers(-50, 50))),
+                h=draw(st.sampled_from([1.0, 0.25, 3.0, 0.01, 60.0])),
+                gaps=draw(st.lists(st.sampled_from([0.5, 1.0, 1.5, 2.0, 7.0]), min_size=1, max_size=4)),
+                periods=draw(fl(0.5, 5.0)), sig=10.0 ** draw(fl(-1.0, 1.5)), phase=draw(fl(0.0, 6.28)),
+                off=draw(st.sampled_from([0.0, 0.0, 100.0, -7.5])), E0=10.0 ** draw(fl(-2.5, 1.8)),
+                seed=draw(st.integers(0, 10 ** 6)))
+
+
+def expand(case):
+    """full case (with x and y lists) of a compact long-series case; other cases are returned unchanged."""
+    if "long" not in case or "x" in case:
+        return case
+    sp = case["long"]
+    n = sp["n"]
+    if sp["xk"] == "unit":
+        x = [sp["x0"] + i for i in range(n)]
+    elif sp["xk"] == "fstep":
+        x = [sp["x0"] + i * sp["h"] for i in range(n)]
+    else:
+        x = [sp["x0"]]
+        g = sp["gaps"]
+        for i in range(n - 1):
+            x.append(x[-1] + sp["h"] * g[i % len(g)])
+    u = [math.fmod(math.sin(i * 12.9898 + sp["seed"]) * 43758.5453, 1.0) for i in range(n)]
+    mean = math.fsum(u) / n
+    a = math.sqrt(sp["E0"] / math.fsum((v - mean) ** 2 for v in u))
+    y = [sp["off"] + sp["sig"] * math.sin(2 * math.pi * sp["periods"] * i / n + sp["phase"]) + a * (u[i] - mean)
+         for i in range(n)]
+    return dict(case, x=x, y=y)
+
+
+def expanding(body):
+    """runs `body` on the expanded case but records the compact one in the evidence."""
+    def wrapped(ctx, case):
+        record = ctx.record
+        ctx.record = lambda _c, classes=(), nontrivial=False: record(case, classes, nontrivial)
+        try:
+            body(ctx, expand(case))
+        finally:
+            del ctx.record
+    wrapped.__name__ = body.__name__
+    return wrapped
+
+
+@st.composite
+def base(draw, ctx, ykind=None, nonconstant=False, m_hi=80, offsets=True, long_weight=0):
+    if long_weight and draw(st.integers(0, 15)) < long_weight:
+        sp = draw(long_spec(ctx))
+        return dict(long=sp, xkind="long-" + sp["xk"], ykind="long", xint=False, xc="array", yc="array")
     m = draw(st.one_of(st.integers(5, 12), st.integers(5, m_hi)))
     xd = draw(xs(m, max_ratio=1e2, offsets=offsets))
     x = xd["x"]
@@ -240,14 +297,18 @@ def to_function_case(draw, ctx):
 
 @st.composite
 def condition_case(draw, ctx):
-    case = draw(base(ctx, nonconstant=True))
-    case["s"] = draw(smoothing(zero_weight=1))
+    case = draw(base(ctx, nonconstant=True, long_weight=1))
+    if "long" in case:
+        # near the noise energy (see long_spec); 0.7..1.3 of it keeps the constraint active and the fit cheap
+        case["s"] = min(max(draw(fl(0.7, 1.3)) * case["long"]["E0"], 1e-4), 1e2)
+    else:
+        case["s"] = draw(smoothing(zero_weight=1))
     return case
 
 
 @st.composite
 def identity_case(draw, ctx):
-    case = draw(base(ctx))
+    case = draw(base(ctx, long_weight=1))
     case["s"] = draw(st.sampled_from([0, 0.0]))
     return case
 
@@ -261,7 +322,7 @@ def affine_case(draw, ctx):
 
 @st.composite
 def default_case(draw, ctx):
-    return draw(base(ctx))
+    return draw(base(ctx, long_weight=1))
 
 
 # ---- helpers ------------------------------------------------------------------------------------------------------
@@ -287,7 +348,8 @@ def common_classes(case):
     d = [b - a for a, b in zip(x[:-1], x[1:])]
     cls.add("x-uniform" if max(d) - min(d) <= 1e-9 * max(d) else "x-non-uniform")
     m = len(x)
-    cls.add("m:5-8" if m <= 8 else "m:9-30" if m <= 30 else "m:31-80")
+    cls.add("m:5-8" if m <= 8 else "m:9-30" if m <= 30 else "m:31-999" if m < 1000 else "m:1000-2048" if m <= 2048
+            else "m:2049-4096" if m <= 4096 else "m:>4096")
     return cls
 
 
@@ -504,6 +566,7 @@ def default_body(ctx, case):
 # ---- histories on one Weaver -------------------------------------------------------------------------------------
 
 PROBE_T = [0.0, 0.13, 0.37, 0.5, 0.71, 0.9, 1.0]
+NORM_RANGES = [[0.0, 1.0], [-1.0, 1.0], [10.0, 20.0], [0.0, 100.0], [-5.0, -1.0]]
 
 
 def trend_fun(spec):
@@ -517,43 +580,45 @@ def trend_fun(spec):
 
 @st.composite
 def history_case(draw, ctx):
-    case = draw(base(ctx, m_hi=40, offsets=False))
-    xsim = [float(v) for v in case["x"]]
-
-    def strict(v):
-        return all(b > a for a, b in zip(v[:-1], v[1:]))
-
+    case = draw(base(ctx, m_hi=40, offsets=False, nonconstant=True, long_weight=1))
+    is_long = "long" in case
+    if is_long:
+        # on long series only steps whose effect on the noise energy the harness can follow, so that every smooth
+        # step can be given an s near that energy (FITPACK needs seconds when s is far below it)
+        ops = ["shift_y", "scale_y", "scale_y", "smooth", "smooth", "trend", "shift_x", "scale_x",
+               "append_one_sample", "append_one_sample", "truncate_by_index"]
+    else:
+        ops = ["shift_y", "shift_y", "scale_y", "scale_y", "scale_y", "smooth", "smooth", "smooth", "trend", "noise",
+               "shift_x", "scale_x", "restore_original", "append_one_sample", "append_one_sample", "repeat",
+               "truncate_by_index", "truncate_by_value", "normalize_x", "normalize_y"]
     tf = st.sampled_from([None, None, "default", "default", 0, 0.0])
     steps = []
     n = draw(st.integers(3, 8))
     for i in range(n):
-        op = draw(st.sampled_from(["shift_y", "shift_y", "scale_y", "scale_y", "scale_y", "smooth", "smooth", "smooth",
-                                   "trend", "noise", "shift_x", "scale_x", "restore_original"]))
+        op = draw(st.sampled_from(ops))
         if op == "restore_original":
-            xsim = [float(v) for v in case["x"]]
             step = dict(op=op)
+        elif op == "append_one_sample":
+            step = dict(op=op, periodic=draw(st.sampled_from([True, True, False])))
+        elif op == "repeat":
+            step = dict(op=op, arg=draw(st.sampled_from([1, 2, 2])))
+        elif op in ("truncate_by_index", "truncate_by_value"):
+            step = dict(op=op, u=draw(st.one_of(st.just(0.0), fl(0.0, 0.3))), v=draw(st.one_of(st.just(0.0), fl(0.0, 0.3))))
+        elif op in ("normalize_x", "normalize_y"):
+            step = dict(op=op, arg=draw(st.sampled_from(NORM_RANGES)))
         elif op == "shift_x":
-            d = draw(st.one_of(st.integers(-64, 64).map(lambda k: k / 8.0), fl(-100.0, 100.0)))
-            new = [v + d for v in xsim]
-            if strict(new):
-                xsim = new
-                step = dict(op=op, arg=d)
-            else:
-                step = dict(op="shift_y", arg=d)
+            step = dict(op=op, arg=draw(st.one_of(st.integers(-64, 64).map(lambda k: k / 8.0), fl(-100.0, 100.0))))
         elif op == "scale_x":
-            c = draw(st.sampled_from([2.0, 0.5, 4.0, 3.0, 1.5]))
-            new = [v * c for v in xsim]
-            if strict(new):
-                xsim = new
-                step = dict(op=op, arg=c)
-            else:
-                step = dict(op="scale_y", arg=c)
+            step = dict(op=op, arg=draw(st.sampled_from([2.0, 0.5, 4.0, 3.0, 1.5])))
         elif op == "shift_y":
             step = dict(op=op, arg=draw(st.one_of(st.sampled_from([1.0, -1.0, 0.5, 10.0, -3.0]), fl(-100.0, 100.0))))
         elif op == "scale_y":
             step = dict(op=op, arg=draw(st.sampled_from([2.0, 0.5, -1.0, 3.0, 10.0, -0.1, 1.5, -4.0, 0.25])))
         elif op == "smooth":
-            step = dict(op=op, arg=draw(smoothing(zero_weight=1)))
+            if is_long:
+                step = dict(op=op, rho=draw(st.one_of(st.just(0.0), fl(0.7, 1.3))))
+            else:
+                step = dict(op=op, arg=draw(smoothing(zero_weight=1)))
         elif op == "trend":
             spec = draw(st.one_of(st.tuples(st.just("lin"), fl(-5.0, 5.0)), st.tuples(st.just("quad"), fl(-5.0, 5.0)),
                                   st.tuples(st.just("sin"), fl(0.1, 5.0), fl(0.5, 12.0))))
@@ -565,6 +630,66 @@ def history_case(draw, ctx):
     case["steps"] = steps
     case["tf0"] = draw(st.sampled_from(["default", "default", 0, 0.0, None]))
     return case
+
+
+def strictly_increasing(v):
+    return all(b > a for a, b in zip(v[:-1], v[1:]))
+
+
+def apply_domain_step(w, step, limit=400):
+    """Applies shift / scale / normalise / truncate / repeat / append / restore steps when their documented
+    preconditions hold for the CURRENT series (decided on float copies, so it depends on the case only); returns
+    'done', or 'skipped' when the step would leave fewer than 5 samples, merge abscissae, divide by a zero range or
+    grow the series beyond `limit` samples."""
+    op = step["op"]
+    cx = [float(v) for v in w.get()[0]]
+    m = len(cx)
+    if op == "shift_x":
+        if not strictly_increasing([v + step["arg"] for v in cx]):
+            return "skipped"
+        w.shift_x(step["arg"])
+    elif op == "scale_x":
+        if not strictly_increasing([v * step["arg"] for v in cx]):
+            return "skipped"
+        w.scale_x(step["arg"])
+    elif op == "normalize_x":
+        lo, hi = step["arg"]
+        if not strictly_increasing([(v - cx[0]) / (cx[-1] - cx[0]) * (hi - lo) + lo for v in cx]):
+            return "skipped"
+        w.normalize_x(lo, hi)
+    elif op == "normalize_y":
+        cy = [float(v) for v in w.get()[1]]
+        if not max(cy) > min(cy):
+            return "skipped"
+        w.normalize_y(step["arg"][0], step["arg"][1])
+    elif op == "restore_original":
+        w.restore_original()
+    elif op == "append_one_sample":
+        w.append_one_sample(make_periodic=step["periodic"])
+    elif op == "repeat":
+        if m * step["arg"] > limit:
+            return "skipped"
+        w.repeat(step["arg"])
+    elif op == "truncate_by_index":
+        start, stop = int(step["u"] * m), m - int(step["v"] * m)
+        if stop - start < 5 or len(w.get_reference()[0]) != m:
+            return "skipped"
+        w.truncate_by_index(start, stop)
+    elif op == "truncate_by_value":
+        left = step["u"] * (cx[-1] - cx[0]) + cx[0]
+        right = (1.0 - step["v"]) * (cx[-1] - cx[0]) + cx[0]
+        li = max([i for i, v in enumerate(cx) if v <= left], default=0)
+        ri = min([i for i, v in enumerate(cx) if v >= right], default=m - 1)
+        if ri - li + 1 < 5 or not left < right:
+            return "skipped"
+        w.truncate_by_value(step["u"], 1.0 - step["v"], x_left_as_ratio=True, x_right_as_ratio=True)
+    elif op == "shift_y":
+        w.shift_y(step["arg"])
+    elif op == "scale_y":
+        w.scale_y(step["arg"])
+    else:
+        raise KeyError(op)
+    return "done"
 
 
 _FIRST_VERDICT = {}
@@ -593,6 +718,8 @@ def _history(ctx, case):
     w = Weaver(xi, yi)
     snaps = []
     smooths = []
+    is_long = "long" in case
+    energy = case["long"]["E0"] if is_long else None      # noise energy of a long series, followed through the steps
 
     def snapshot(tf, label):
         # only Python floats are kept: no reference to any array of the Weaver survives this call, so that the
@@ -618,21 +745,37 @@ def _history(ctx, case):
             elif op == "noise":
                 np.random.seed(step["seed"])
                 w.noise(step["arg"])
-            elif op == "restore_original":
-                w.restore_original()
             elif op == "smooth":
+                if is_long:
+                    s_val = step["rho"] * energy
+                    if s_val != 0 and not 1e-4 <= s_val <= 1e2:
+                        ctx.count("long: matched s outside [1e-4, 1e2], smooth step skipped")
+                        continue
+                else:
+                    s_val = step["arg"]
                 # a judged step: the series just before the call is the input of the smoothing condition
                 xb = [float(v) for v in w.get()[0]]
                 yb = [float(v) for v in w.get()[1]]
-                ret = w.smooth(step["arg"])
+                ret = w.smooth(s_val)
                 if ret is not w:
                     raise Violation("Weaver.smooth did not return self")
-                smooths.append(["smooth(%r) after %s" % (step["arg"], " > ".join(done) or "nothing"), step["arg"], xb,
+                smooths.append(["smooth(%r) after %s" % (s_val, " > ".join(done) or "nothing"), s_val, xb,
                                 yb, np.asarray(w.get()[0], dtype=float).tolist(),
                                 np.asarray(w.get()[1], dtype=float).tolist()])
             else:
-                getattr(w, op)(step["arg"])
-            done.append(op)
+                before = len(w.get()[0])
+                if apply_domain_step(w, step, limit=6000 if is_long else 400) == "skipped":
+                    ctx.count("step skipped (precondition)")
+                    continue
+                if is_long and op == "scale_y":
+                    energy *= step["arg"] ** 2
+                if is_long and op == "truncate_by_index":
+                    energy *= len(w.get()[0]) / before
+            done.append(op if op != "append_one_sample" else op + ("(periodic)" if step["periodic"] else ""))
+            cur = [float(v) for v in w.get()[0]]
+            if len(cur) < 5 or not strictly_increasing(cur):
+                ctx.count("history-left-the-conditioned-range")
+                return
             if step["tf"] is not None:
                 snapshot(step["tf"], "to_function() after " + " > ".join(done))
         fresh = []
@@ -645,7 +788,6 @@ def _history(ctx, case):
     if fp.warned:
         ctx.count("discarded_fitpack")
         return
-    m = len(case["x"])
     for label, s_val, xb, yb, xa, ya, direct in smooths:
         if xa != xb:
             raise Violation(f"{label} changed x or the length")
@@ -658,21 +800,31 @@ def _history(ctx, case):
             raise Violation(f"{label} differs from spline_smooth(x, y, {s_val!r})(x) on copies of the series it was "
                             f"applied to", detail=dict(maxdiff=max(abs(a - b) for a, b in zip(ya, direct))))
     for (label, xl, yl, probes, vs, vp), fr in zip(snaps, fresh):
-        if len(xl) != m or len(yl) != m:
-            raise Violation(f"{label}: the series has {len(xl)} / {len(yl)} samples instead of {m}")
+        m = len(xl)
+        if len(yl) != m:
+            raise Violation(f"{label}: get() returns {m} abscissae and {len(yl)} values")
         if len(vs) != m or len(vp) != len(probes) or not all(math.isfinite(v) for v in vs + vp):
             raise Violation(f"{label}: the spline returns values of the wrong shape or non-finite values")
         check_close(vs, yl, tol_for(yl, 1e-8), f"{label} does not pass through the current samples of get()")
         check_close(vp, fr, tol_for(yl, 1e-8),
                     f"{label} differs between the samples from the spline of a fresh Weaver holding the same samples")
     cls = common_classes(case)
-    ops = [s_["op"] for s_ in case["steps"]]
-    cls |= {"op:" + o for o in ops}
+    cls |= {"op:" + o for o in done}
     cls.add(f"to_function-calls:{min(len(snaps), 5)}{'+' if len(snaps) >= 5 else ''}")
     cls.add(f"judged-smooth-steps:{min(len(smooths), 3)}{'+' if len(smooths) >= 3 else ''}")
     seen = set()
+    y_changers = {"trend", "noise", "smooth", "shift_y", "scale_y", "normalize_y"}
+    for o in done:
+        if o in y_changers and "append_one_sample(periodic)" in seen:
+            seen.add("y-change after periodic append")
+        if o == "smooth" and "y-change after periodic append" in seen:
+            cls.add("smooth after periodic append + y change")
+        seen.add(o)
+    if "y-change after periodic append" in seen:
+        cls.add("judged call after periodic append + y change")
+    seen = set()
     for s_ in case["steps"]:
-        if s_["op"] == "smooth" and s_["arg"] != 0:
+        if s_["op"] == "smooth" and s_.get("arg", s_.get("rho")) != 0:
             cls.add("smooth(s>0)")
             if "scale_y" in seen:
                 cls.add("smooth(s>0) after scale_y(|c|!=1)")
@@ -692,32 +844,32 @@ def _history(ctx, case):
     if case["tf0"] is not None:
         last = -1
     for i, s_ in enumerate(case["steps"]):
-        if s_["op"] in ("shift_x", "scale_x", "trend"):
-            y_only = -10 ** 6 if s_["op"] != "trend" else y_only + 1
-        else:
+        if s_["op"] in ("shift_y", "scale_y", "noise", "smooth", "normalize_y"):
             y_only += 1
+        else:
+            y_only = -10 ** 6
         if s_["tf"] is not None:
             if last is not None and y_only >= 2:
                 cls.add("calls-separated-by->=2-y-replacements")
             last, y_only = i, 0
     if any(s_["tf"] in (0, 0.0) and s_["tf"] != "default" for s_ in case["steps"]) or case["tf0"] in (0, 0.0):
         cls.add("explicit-s=0-call")
-    ctx.record(case, cls, nontrivial=len(snaps) >= 2)
+    ctx.record(case, cls, nontrivial=len(snaps) + len(smooths) >= 2)
 
 
 SUBCHECKS = [
-    Sub("to_function", "hyp", to_function_body, strategy=to_function_case, quick=400, thorough=8000,
+    Sub("to_function", "hyp", expanding(to_function_body), strategy=to_function_case, quick=400, thorough=8000,
         clause="to_function() with its default s passes through every sample and agrees with get()"),
-    Sub("condition", "hyp", condition_body, strategy=condition_case, quick=400, thorough=8000,
+    Sub("condition", "hyp", expanding(condition_body), strategy=condition_case, quick=400, thorough=8000,
         clause="smooth(s) keeps x and the length; sum of squared deviations <= s (0.1 % solver tolerance); the "
                "Weaver and the process function agree"),
-    Sub("identity_s0", "hyp", identity_body, strategy=identity_case, quick=400, thorough=8000,
+    Sub("identity_s0", "hyp", expanding(identity_body), strategy=identity_case, quick=400, thorough=8000,
         clause="s = 0 is the identity"),
-    Sub("affine", "hyp", affine_body, strategy=affine_case, quick=400, thorough=8000,
+    Sub("affine", "hyp", expanding(affine_body), strategy=affine_case, quick=400, thorough=8000,
         clause="affine data are returned unchanged for every s (also omitted)"),
-    Sub("default_s", "hyp", default_body, strategy=default_case, quick=400, thorough=8000,
+    Sub("default_s", "hyp", expanding(default_body), strategy=default_case, quick=400, thorough=8000,
         clause="s omitted means s = len(y)*var(y)"),
-    Sub("history", "hyp", history_body, strategy=history_case, quick=400, thorough=8000,
+    Sub("history", "hyp", expanding(history_body), strategy=history_case, quick=400, thorough=8000,
         clause="during a history of 3..8 steps on ONE Weaver: to_function() passes through the current get() samples "
                "every time and equals the spline of a fresh Weaver on the same samples; every smooth(s) step keeps x, "
                "obeys the smoothing condition w.r.t. the series just before it, is the identity for s = 0 and equals "
